@@ -468,6 +468,7 @@ pub fn search(prop: &str, seed: u64, first: u64, n: u64, thorough: bool) -> Sear
         "C13" => crate::search2::search_c13(seed, first, n),
         "C14" => crate::search2::search_c14(seed, first, (n / 40).max(20), thorough),
         "C17" => crate::search2::search_c17(seed, first, n),
+        "C20" => crate::search2::search_c20(seed, first, n / 4),
         _ => search_trace(prop, seed, first, n),
     }
 }
@@ -480,6 +481,7 @@ pub fn replay(prop: &str, case: &SearchCase) -> Vec<Finding> {
         }
         "same-view" | "self-reapply" | "exchange" => check_c01(case).into_iter().collect(),
         "c14-rounds" => crate::search2::check_c14(case).into_iter().collect(),
+        "c20" => crate::search2::check_c20(case, &mut crate::driver::Driver::spawn().ok()).into_iter().collect(),
         "c13-inorder" | "c13-random" => crate::search2::check_c13(case).into_iter().collect(),
         c if c.starts_with("c17-twin") => crate::search2::check_c17(case).into_iter().collect(),
         _ => vec![],
